@@ -59,16 +59,29 @@ def gen_mr_case(rng, small=True, nfiles=None):
         "cleanup": rng.random() < 0.3,
         "packed": rng.random() < 0.5,
     }
-    return {"nf": nf, "files": files, "cfg": cfg}
+    names = rng.choice(["padded", "padded", "reverse", "unpadded"])
+    if nfiles >= 2 and (cfg["split_after"] or cfg["refine"] != "none") and rng.random() < 0.7:
+        names = "reverse"       # rounds that re-read the inputs by global index: order given != order sorted
+    return {"nf": nf, "files": files, "cfg": cfg, "names": names}
 
 
 def write_inputs(case, d: Path):
     paths = []
     z = len(str(len(case["files"])))
+    k = len(case["files"])
+    scheme = case.get("names", "padded")
     for i, rows in enumerate(case["files"]):
         A = np.array(rows, dtype=np.uint8).reshape(len(rows), case["nf"])
         X = np.packbits(A, axis=1) if case["cfg"]["packed"] else A
-        p = d / f"in-{str(i).zfill(z)}.npy"
+        # the workflow numbers fingerprints in the order the files are GIVEN, whatever their names:
+        # "reverse" and "unpadded" make that order differ from the sorted-name order
+        if scheme == "reverse":
+            nm = f"in-{str(k - 1 - i).zfill(z)}.npy"
+        elif scheme == "unpadded":
+            nm = f"fps.{8 + i}.npy"
+        else:
+            nm = f"in-{str(i).zfill(z)}.npy"
+        p = d / nm
         np.save(p, X)
         paths.append(p)
     return paths
